@@ -15,7 +15,7 @@ LEVEL = "exploration"
 RULE = (
     "(a) complete enumeration over all 43 types x all spec'd controllers x {default, min-1, min, min+1, mid, max-1, max, "
     "max+1 | every enum member by value/name/object + invalid name + out-of-enum ints | both booleans | every unit variant} "
-    "x {strict, lenient} x {setattr, constructor keyword}; (b) Hypothesis: random assignment histories on one module "
+    "x {strict, lenient} x {setattr, constructor keyword}, each shard after a different prelude (nothing / successful loads / failed loads / a load failing inside a nested load); (b) Hypothesis: random assignment histories on one module "
     "(previous values vary). distinct = (type, controller, unit, value, mode, path) tuple / history hash; non-trivial = value "
     "at or one beyond a bound, invalid enum input, or assignment over a non-default previous value"
 )
@@ -36,7 +36,8 @@ def plan(tier):
     descs = []
     k = 8
     for i in range(k):
-        descs.append({"kind": "enum", "types": names[i::k]})
+        # the library may have been used before the assignment: nothing, a successful load, a failed load
+        descs.append({"kind": "enum", "types": names[i::k], "prelude": ["none", "load_ok", "load_fails", "load_fails_nested"][i % 4]})
     n = 8
     per = 300 if tier == "quick" else 5000
     for i in range(n):
@@ -65,9 +66,23 @@ def same(got, want):
 
 
 def set_flag(strict):
+    """Strict is the library's default mode and is *not* forced by the check (so that a mode
+    left behind by earlier use of the library shows); lenient is entered explicitly and the
+    previous value is put back afterwards."""
     import rv.errors
 
+    if strict is True:
+        return None
+    prev = rv.errors.RAISE_CONTROLLER_VALUE_ERRORS
     rv.errors.RAISE_CONTROLLER_VALUE_ERRORS = bool(strict)
+    return prev
+
+
+def restore_flag(prev):
+    import rv.errors
+
+    if prev is not None:
+        rv.errors.RAISE_CONTROLLER_VALUE_ERRORS = prev
 
 
 def enum_type(ctx, tname):
@@ -76,7 +91,6 @@ def enum_type(ctx, tname):
     spec = specmodel.load()
     mt = spec[tname]
     cls = classes()[mt.mtype]
-    set_flag(True)
     fresh = cls()
     for c in mt.controllers:
         ent = "%s.%s" % (tname, c.name)
@@ -94,7 +108,7 @@ def enum_type(ctx, tname):
         rec = {"op": "assign", "type": tname, "ctl": c.name, "unit": unit, "prev": repr(prev), "value": repr(v), "strict": strict, "path": path, "expect": expect}
         ctx.case()
         key = "%s|%s|%s|%s|%s" % (ent, unit, repr(v), strict, path)
-        set_flag(strict)
+        prev_flag = set_flag(strict)
         try:
             err = None
             if path == "setattr":
@@ -121,7 +135,7 @@ def enum_type(ctx, tname):
                     err = e
                     after = None
         finally:
-            set_flag(True)
+            restore_flag(prev_flag)
         so = "C09.%s.%s" % (path, expect)
         if expect == "ok":
             want = v
@@ -254,7 +268,6 @@ def run_history(ctx, h):
     spec = specmodel.load()
     mt = spec[h["type"]]
     cls = classes()[mt.mtype]
-    set_flag(True)
     mod = cls()
     model = {}
     for c in mt.controllers:
@@ -310,8 +323,47 @@ def run_history(ctx, h):
     return nontriv
 
 
+def prelude(kind):
+    """Use of the library before the assignments under test (strict mode must be unaffected)."""
+    import glob
+    import os
+    from io import BytesIO
+
+    from rv.api import Synth, m, read_sunvox_file
+    from vlib.harness import REPO
+
+    if kind == "none":
+        return
+    if kind == "load_ok":
+        for f in sorted(glob.glob(os.path.join(REPO, "tests", "files", "*.sunsynth")))[:6]:
+            read_sunvox_file(f)
+        return
+    if kind == "load_fails":
+        for data in (b"SSYN\0\0\0\0VERS\4\0\0\0\1\2\1\2SFFF\4\0\0\0\0\0\0\0STYP\4\0\0\0Nop\0SEND\0\0\0\0", b"SVOX\0\0\0\0BPM \2\0\0\0\0\0"):
+            try:
+                read_sunvox_file(BytesIO(data))
+            except Exception:  # noqa: BLE001
+                pass
+        try:
+            read_sunvox_file("/nonexistent/file.sunvox")
+        except Exception:  # noqa: BLE001
+            pass
+        return
+    # a load that fails inside a nested load (embedded project cut short)
+    mm = m.MetaModule()
+    mm.project.new_module(m.Amplifier)
+    data = Synth(mm).read()
+    for cut in (len(data) // 2, len(data) - 40, 200):
+        try:
+            read_sunvox_file(BytesIO(data[:cut] + b"STYP\4\0\0\0Bad\0"))
+        except Exception:  # noqa: BLE001
+            pass
+
+
 def run_shard(ctx, desc):
     if desc["kind"] == "enum":
+        prelude(desc.get("prelude", "none"))
+        ctx.label("prelude_" + desc.get("prelude", "none"))
         for t in desc["types"]:
             enum_type(ctx, t)
         return
